@@ -431,7 +431,7 @@ func walkRedirs(cmds []ast.Command, f func(*ast.Redir)) {
 
 func prGen(kind string) func(c *core.Ctx) {
 	return func(c *core.Ctx) {
-		n := c.Pick(1500, 20000)
+		n := c.Pick(1500, 60000)
 		for i := 0; i < n; i++ {
 			r := c.Rand("prog", int64(i))
 			p := genProgram(r, i)
